@@ -1,5 +1,9 @@
+pub mod dnsconv;
 pub mod engine;
+pub mod ethip;
 pub mod hist;
+pub mod props_codec;
+pub mod rfc1035;
 pub mod props_dhcp;
 pub mod rfc2131;
 
@@ -41,6 +45,18 @@ pub fn run_check(id: &str, tier: Tier) -> i32 {
             ctx.rule("gauges: after every step of a generated history get_pool_metrics must equal the harness's own count from get_leases; non-trivial = both classes non-empty");
             props_dhcp::run_c20_func(&ctx);
         }
+        "C12" => {
+            ctx.rule("message: generated DHCP messages (all header values, hlen 0..16, option multisets with repeated/zero-length/1500-octet values) -> parse -> serialise -> parse and an RFC 2131/3396 decoder; frame: generated payloads 0..1472 x addresses x MACs through Fragment::new_udp4, decoded by an independent Ethernet/IPv4/UDP decoder with checksum verification; broadcast-flag: all 65536 flag values; non-trivial = long/repeated/zero-length option, odd payload, every flag value");
+            props_codec::run_c12_func(&ctx);
+        }
+        "C14" => {
+            ctx.rule("structured: generated messages (1..2000 records, names sharing suffixes at every depth, all rdata kinds, EDNS options) -> erbium DNSPkt -> serialise -> crate parser (equality) and independent RFC 1035 decoder (field-by-field at RFC bit positions, pointer audit); bytes: harness-encoded messages under three compression modes with 0..2 byte edits, accepted inputs re-encoded and compared; non-trivial = pointer inside rdata, or > 16 KiB, or EDNS options / accepted multi-record input");
+            props_codec::run_c14_func(&ctx);
+        }
+        "C04" => {
+            ctx.rule("truncate: generated messages x size limits placed at/around every record boundary or absolute 512..65535 through serialise_with_size; oracle: independent decoder accepts, len<=limit, fits => identical to full, else TC + proper record prefix; non-trivial = full encoding within 32 octets of the limit or above it");
+            props_codec::run_c04_func(&ctx);
+        }
         _ => {
             eprintln!("unknown property {}", id);
             return 2;
@@ -67,7 +83,7 @@ pub fn run_replay(path: &str) -> i32 {
     let id = v["property"].as_str().unwrap_or("");
     let sub = v["sub"].as_str().unwrap_or("");
     let case = &v["case"];
-    let res = props_dhcp::replay(id, sub, case);
+    let res = props_dhcp::replay(id, sub, case).or_else(|| props_codec::replay(id, sub, case));
     match res {
         None => {
             eprintln!("no replayer for {} / {}", id, sub);
